@@ -20,7 +20,7 @@ RULE = ("seeded random construction programs (1-40 steps, 1-8 modes) over bs(Rx/
         "and at least one of {loss before a later component, reversed-order H beam splitter, "
         "boundary value}")
 MANDATORY = ["bs_after_loss", "ps_after_loss", "swaps_after_loss", "unitary_after_loss",
-             "loss_after_loss", "barrier_after_loss", "reversed_H_bs", "nonadjacent_bs"]
+             "loss_after_loss", "barrier_after_loss", "reversed_H_bs", "nonadjacent_bs", "large_mode_count", "group_shared_then_unpacked_and_extended"]
 DECIDING = ["u_full_postconditions", "mon.cmp"]
 BUDGET = {"quick": 25, "thorough": 420}
 ASSUMPTIONS = ["own Glynn permanent and wire model are the reference (written from the documented "
@@ -157,7 +157,9 @@ def run(ctx):
     directed(ctx, lw, rng)
     max_steps = 40 if ctx.tier == "thorough" else 25
     while not ctx.out_of_time():
-        n = int(rng.integers(1, 9))
+        n = int(rng.integers(1, 9)) if rng.random() < 0.9 else int(rng.integers(9, 15))
+        if n >= 9:
+            ctx.bucket("large_mode_count")
         b = Builder(rng, lw, loss_p=float(rng.choice([0.0, 0.15, 0.5])))
         c = lw.Circuit(n)
         log = [["circuit", n]]
@@ -167,6 +169,30 @@ def run(ctx):
             b.primitive(c, log, n)
             if i in check_at:
                 check_circuit(ctx, c, log, rng)
+        if rng.random() < 0.25:
+            # the same components held as ONE group in a second circuit that is shared through copy() / +, then the
+            # sharer is unpacked and extended: every circuit must still report the product of what was added to *it*
+            try:
+                g = lw.Circuit(n)
+                g.add(c, 0, group=True)
+                other = g.copy() if rng.random() < 0.5 else (g + lw.Circuit(n))
+                holder = g if rng.random() < 0.5 else other
+                watcher = other if holder is g else g
+                holder.unpack_groups()
+                elog: list = []
+                for _ in range(int(rng.integers(1, 4))):
+                    b.primitive(holder, elog, n)
+                ctx.bucket("group_shared_then_unpacked_and_extended")
+                for who, cc in (("untouched sharer", watcher), ("extended circuit", holder), ("original", c)):
+                    status, problems = circmon.compare(cc, rng)
+                    if status == "compared":
+                        ctx.count("u_full_postconditions")
+                        for kind, detail in problems:
+                            ctx.violation(f"{who} after group sharing/unpack/extend: {kind}: {detail}",
+                                          case={"program": log, "extension": elog}, mechanism="aliasing_" + kind,
+                                          monitor="U_full post-condition")
+            except Exception as e:  # noqa: BLE001
+                ctx.count("aliasing_epilogue_raised:" + type(e).__name__)
         nt = classify(log, ctx)
         ctx.case(key_of(log), nt, sample={"program": log})
         drain_into(ctx, {"program": log})
